@@ -2,7 +2,7 @@
 from __future__ import annotations
 import os
 from .common import *
-from . import kani_engine
+from . import kani_engine, mirsym_engine
 
 FMT = "std::fmt::format -> empty String"
 TRC = ["tracing_core::callsite::DefaultCallsite::register -> Interest::never",
@@ -61,15 +61,109 @@ PROPERTIES = {
 }
 
 
+def M(name, module, func, bounds, params=None, budget=None, required_covers=(), tiers=("quick", "thorough")):
+    return dict(name=name, module="verifkit.mirsym.drivers." + module, func=func, bounds=bounds,
+                params=params or {}, budget=budget or {}, required_covers=list(required_covers), tiers=tiers)
+
+
+MIRSYM_TRUST = [
+    "mirsym: own interpreter of rustc's MIR dump (regenerated from /repo each run); functions of the rzmq crate are executed from their MIR, calls leaving the crate go to the hand-written models listed under models_used",
+    "container lengths are concrete per path (inputs of symbolic length are enumerated by forking up to the stated bound); bytes and integers are z3 bit-vectors",
+    "tracing macros are statically disabled; format!/Display produce opaque strings",
+    "every counterexample is replayed natively (/verif/replay, debug and release) before it is reported",
+]
+
+PROPERTIES["C06"] = {
+    "mirsym": [
+        M("c06_plain_server_arbitrary_stream", "d_c06", "plain_server_arbitrary_stream",
+          {"quick": "PLAIN server (REP), ALLOW_ZMTP2 both values, credentials 1+1 symbolic bytes, peer stream = 84 fully symbolic bytes delivered in one read (64-byte greeting + 20 bytes: enough for HELLO(1,1)+READY); exploration stops when the Data phase is entered",
+           "thorough": "same with credentials 2+2 symbolic bytes and 92 symbolic peer bytes"},
+          params={"quick": {"n": 84, "cred_len": 1}, "thorough": {"n": 92, "cred_len": 2}},
+          budget={"quick": 400, "thorough": 3000},
+          required_covers=["c06.plain-server.rejected", "c06.plain-server.handshake-complete-with-valid-hello"]),
+    ],
+    "assumptions": MIRSYM_TRUST + ["CURVE and NOISE_XX are not in the default feature set the dump is built with; their bypass checks are limited to the version/mechanism gate shared with PLAIN (greeting, negotiate_security_mechanism, v2 refusal)"],
+    "manifest": {
+        "engine": "mirsym",
+        "technique": "symbolic execution of the engine's MIR (z3) over a fully symbolic peer byte stream; oracle on the tokens reaching the mechanism",
+        "text": "For a PLAIN-configured listener and EVERY peer byte stream within the bound (all greetings: any revision, mechanism field, as-server byte, padding; any following frames), the engine reaches HandshakeComplete / Data / DeliverMessage only if a HELLO carrying exactly the configured username and password was processed. All paths are enumerated; each verdict is a z3 query.",
+        "design_ref": "DESIGN.md §5 C06",
+        "note": "Bounded by the stream length (84/92 bytes, one read; cut independence is C04) and credential length; PLAIN client role and CURVE/NOISE transcripts are outside (listed in DESIGN.md). Model library and MIR semantics are trusted; counterexamples are replayed natively.",
+    },
+    "outside": "PLAIN connector role, CURVE/NOISE_XX handshakes (cryptography, non-default features), streams longer than the bound",
+}
+
+PROPERTIES["C07"] = {
+    "kani": [k for k in PROPERTIES["C03"]["kani"] if "vs_spec" in k["name"]],
+    "mirsym": [
+        M("c07_greeting_phase", "d_c07", "greeting_phase",
+          {"quick": "fresh engine, both roles, ALLOW_ZMTP2 both, 70 symbolic bytes in one read", "thorough": "76 symbolic bytes"},
+          params={"quick": {"n": 70}, "thorough": {"n": 76}}, budget={"quick": 300, "thorough": 2000},
+          required_covers=["c07.greeting.closed", "c07.greeting.reached-ready-or-data"]),
+        M("c07_ready_phase", "d_c07", "ready_phase",
+          {"quick": "engine in Ready phase (honest NULL greeting replayed), both roles, 20 symbolic bytes", "thorough": "28 symbolic bytes"},
+          params={"quick": {"n": 20}, "thorough": {"n": 28}}, budget={"quick": 300, "thorough": 2500},
+          required_covers=["c07.ready.handshake-complete", "c07.ready.closed"]),
+        M("c07_data_phase", "d_c07", "data_phase",
+          {"quick": "engine in Data phase (v3 and v2), partial multipart message of L in {0,2,255} frames pending, then 5 symbolic bytes",
+           "thorough": "L in {0,1,2,254,255}, 8 symbolic bytes"},
+          params={"quick": {"n": 5, "partial_lens": [0, 2, 255]}, "thorough": {"n": 8, "partial_lens": [0, 1, 2, 254, 255]}},
+          budget={"quick": 400, "thorough": 3000},
+          required_covers=["c07.data.delivered", "c07.data.closed"]),
+        M("c07_maxmsgsize_limit", "d_c07", "maxmsgsize_limit",
+          "engine in Data phase, MAXMSGSIZE = any limit >= 28 (symbolic i64), one frame header with any flags/any 8- or 64-bit length: refused iff length > limit, nothing but the header buffered",
+          budget={"quick": 120, "thorough": 300},
+          required_covers=["c07.maxmsgsize.exact-limit-accepted", "c07.maxmsgsize.limit-plus-one-refused"]),
+    ],
+    "assumptions": MIRSYM_TRUST + ["Kani harnesses: see C03"],
+    "manifest": {
+        "engine": "mirsym+kani",
+        "technique": "symbolic execution of the engine's MIR (z3), one step from every protocol phase on arbitrary bytes; Kani/CBMC for the frame decoders over the full 64-bit length range",
+        "text": "Panic freedom and size bounds: from each phase (Greeting, Ready, Data with 0..255 pending MORE frames, v2 and v3) one on_network_bytes call with arbitrary bytes never panics, every fatal error closes the engine, Closed is absorbing; MAXMSGSIZE accepts exactly-limit and refuses limit+1 for every limit (engine level: limit >= 28; parser level via Kani: every i64) and refuses before buffering the body.",
+        "design_ref": "DESIGN.md §5 C07",
+        "note": "NOT claimed: the handshake-interval timer, release of the connection slot, survival of the owning socket and its other connections, the io_uring handler (async runtime behaviour); PLAIN-phase robustness is exercised by the C06 driver; CURVE/NOISE parsers are outside the default feature set.",
+    },
+    "outside": "handshake timer, connection-slot release, socket survival (tokio actors); CURVE/NOISE parsers; io_uring handler",
+}
+
+PROPERTIES["C02"] = {
+    "mirsym": [PROPERTIES["C07"]["mirsym"][2]],
+    "assumptions": MIRSYM_TRUST,
+    "manifest": {
+        "engine": "mirsym",
+        "technique": "symbolic execution of ZmtpEngine::process_data (MIR, z3): one inductive step from a state with L pending frames",
+        "text": "Receiver side of a connection: whatever bytes arrive while L in {0..255} MORE-frames are pending, the engine only delivers whole messages (MORE on all but the last frame, no COMMAND frame inside), and a message with more frames than FrameBatch supports closes the connection instead of panicking.",
+        "design_ref": "DESIGN.md §5 C02",
+        "note": "NOT claimed: frame-by-frame recv()/recv_multipart() mixing on the ingress engines, sender-side refusal of >255 frames, peer attach/detach interleavings (socket level).",
+    },
+    "outside": "socket-level ingress (recv/recv_multipart mixing), sender-side limits, attach/detach interleavings",
+}
+
+PROPERTIES["C17"] = {
+    "kani": [
+        K("c17_backoff_single", "c17_backoff", ["rzmq::socket::core::state::ReconnectState::on_connection_failure"],
+          "attempt counter: any u32; RECONNECT_IVL: any 1..=i32::MAX ms; RECONNECT_IVL_MAX: any 0..=i32::MAX ms (the full range the option parsers produce); one call", [NOW]),
+        K("c17_is_due", "c17_backoff", ["ReconnectState::is_due", "ReconnectState::on_connection_failure"], "attempts < 4, any interval, arbitrary clock values", [NOW]),
+        K("c17_backoff_step", "c17_backoff", ["ReconnectState::on_connection_failure", "ReconnectState::on_connection_success"],
+          "same ranges; two consecutive failures: monotone, at most doubling, capped; success resets", [NOW], tiers=("thorough",)),
+    ],
+    "assumptions": ["Kani 0.68 / CBMC 6.11 model of std::time::Duration arithmetic (real std code, not a model)", "Instant::now stubbed by an arbitrary instant below 2^40 s"],
+    "manifest": {
+        "engine": "kani",
+        "technique": "bounded model checking (Kani/CBMC) of ReconnectState over the full option range",
+        "text": "Back-off arithmetic for ALL (RECONNECT_IVL, RECONNECT_IVL_MAX, attempt) triples: first delay = IVL (capped), delay never below IVL unless capped, never above IVL_MAX when set, attempt counter saturates; thorough tier adds monotone / at-most-geometric growth across two consecutive failures and reset on success.",
+        "design_ref": "DESIGN.md §5 C17",
+        "note": "NOT claimed: failure isolation between connections, reconnection actually happening, traffic resumption (socket-core event loop, tokio).",
+    },
+    "outside": "failure isolation and reconnect scheduling in the socket core (async event loop)",
+}
+
 HOOK_COMMITS = ["e6aec85"]
 
 NOT_APPLICABLE = {
     "C01": "not claimed yet (machinery under construction)",
-    "C02": "not claimed yet (machinery under construction)",
     "C04": "not claimed yet (machinery under construction)",
     "C05": "not claimed yet (machinery under construction)",
-    "C06": "not claimed yet (machinery under construction)",
-    "C07": "not claimed yet (machinery under construction)",
     "C08": "not claimed yet (machinery under construction)",
     "C09": "not claimed yet (machinery under construction)",
     "C10": "not claimed yet (machinery under construction)",
@@ -79,7 +173,6 @@ NOT_APPLICABLE = {
     "C14": "SNDTIMEO/RCVTIMEO are wall-clock semantics of tokio timers around channel operations and the buffering bound is an end-to-end quantity across three tasks; there is no function whose symbolic execution states it, and a symbolic timer would verify the stub, not rzmq (DESIGN.md §5 C14)",
     "C15": "LINGER is a multi-actor shutdown protocol over tokio timers, mailboxes and kernel socket buffers; out of reach of solver-based checking of functions (DESIGN.md §5 C15)",
     "C16": "not claimed yet (machinery under construction)",
-    "C17": "not claimed yet (machinery under construction)",
     "C18": "not claimed yet (machinery under construction)",
     "C19": "not claimed yet (machinery under construction)",
     "C20": "backend equivalence and kernel-object lifecycles (io_uring rings, fds) cannot be encoded; handlers need a live IoUring (DESIGN.md §5 C20)",
@@ -92,7 +185,11 @@ def run_kani(prop, obls, tier, seed):
     return kani_engine.run_harnesses(obls, timeout_s=tmo, tag=prop)
 
 
-ENGINES = {"kani": run_kani}
+def run_mirsym(prop, obls, tier, seed):
+    return mirsym_engine.run_obligations(prop, obls, tier, seed)
+
+
+ENGINES = {"kani": run_kani, "mirsym": run_mirsym}
 
 
 def replay(prop, result, failure):
@@ -100,3 +197,5 @@ def replay(prop, result, failure):
     if cex.get("engine") == "kani":
         ok, note, path = kani_engine.playback(cex["module"], cex["harness"])
         failure.replayed, failure.replay_note, failure.replay_path = ok, note, path
+    elif cex.get("engine") == "mirsym":
+        mirsym_engine.replay_failure(failure)
